@@ -2856,6 +2856,13 @@ class LinearOperator(object):
         # Pad the index with empty indices
         index = index + tuple(_noop_index for _ in range(ndimension - len(index)))
 
+        # Wrap negative entries of tensor indices (the index arithmetic of the subclasses assumes non-negative entries)
+        if len(index) == ndimension:
+            index = tuple(
+                torch.where(idx < 0, idx + size, idx) if torch.is_tensor(idx) and not idx.dtype == torch.bool else idx
+                for idx, size in zip(index, self.shape)
+            )
+
         # Make the index a tuple again
         *batch_indices, row_index, col_index = index
 
